@@ -201,6 +201,18 @@ theorem operand_dispatch_kinds (f : VFun A V) (ats : List A) (args : Args A V) (
     alike, sub-views in any position), none for host arrays, aliases and literals -/
 theorem compile_one_functor_per_op (v : View A V) : v.compile.length = v.nOps := View.compile_length v
 
+/-- extraction preserves the parameters: the extracted composition, read in execution order, consists of exactly the operations
+    of the view tree in post-order, each functor carrying the attribute list of ITS view (`functor[view.attributes()]`: the
+    run-time parameters of a ufunc's op — leaky_relu slope, elu / celu alpha, hardtanh bounds, softplus beta / threshold,
+    hardshrink / softshrink lambda, prelu alpha — travel in there) and no operands.  Any view tree, sub-views in any position. -/
+theorem compile_preserves_params (v : View A V) :
+    v.compile.reverse = v.opsPost.map VFun.bindAttrs ∧
+    v.compile.reverse.map (·.attrs) = v.opsPost.map (·.2) := by
+  have h := View.compile_reverse v
+  refine ⟨h, ?_⟩
+  rw [h, List.map_map]
+  rfl
+
 private def addV : VFun Unit Nat := ⟨2, fun _ xs => match xs with | [a, b] => a + b | _ => 0⟩
 private def mulV : VFun Unit Nat := ⟨2, fun _ xs => match xs with | [a, b] => a * b | _ => 0⟩
 private def negV : VFun Unit Nat := ⟨1, fun _ xs => match xs with | [a] => 1000 - a | _ => 0⟩
@@ -295,6 +307,20 @@ example :
 example :
     let s : View Unit Nat := .snode sumAllV [] (.cons (.leaf 0) .nil)
     s.isNum = true ∧ s.isView = true ∧ s.isAlias = false ∧ (s.dispatch s.compile).length = 1 := by decide
+-- a parametrised unary op (value = slope * operand, the slope is an attribute; without one: the default slope 1) as outer
+-- node, as inner node and twice with different parameters: the extracted functors carry 3 resp. 7, and re-application
+-- computes with them — with the default it would give 30 / 1005 / 5 instead
+example :
+    let act : VFun Nat Nat := ⟨1, fun ats xs => match ats, xs with | [s], [a] => s * a | _, [a] => a | _, _ => 0⟩
+    let add2 : VFun Nat Nat := ⟨2, fun _ xs => match xs with | [a, b] => a + b | _ => 0⟩
+    let env : Nat → Nat := fun i => [2, 3, 5].getD i 0
+    let v : View Nat Nat := .node act [3] (.cons (.node add2 [] (.cons (.leaf 0) (.cons (.leaf 1) .nil))) .nil)
+    let w : View Nat Nat := .node add2 [] (.cons (.node act [7] (.cons (.leaf 0) .nil)) (.cons (.leaf 1) .nil))
+    let u : View Nat Nat := .node act [3] (.cons (.node act [7] (.cons (.leaf 2) .nil)) .nil)
+    let vals : Option (CRes Nat Nat) → List Nat := fun r => match r with | some (.values vs) => vs | _ => []
+    v.denote env = 15 ∧ vals (applyComp ⟨v.compile, []⟩ (v.operandsOf.map env)) = [15] ∧ v.compile.reverse.map (·.attrs) = [[], [3]] ∧
+    w.denote env = 17 ∧ vals (applyComp ⟨w.compile, []⟩ (w.operandsOf.map env)) = [17] ∧ w.compile.reverse.map (·.attrs) = [[7], []] ∧
+    u.denote env = 105 ∧ vals (applyComp ⟨u.compile, []⟩ (u.operandsOf.map env)) = [105] ∧ u.opsPost.map (·.2) = [[7], [3]] := by decide
 -- leftLinear_wellFormed on that tree's shape: a left-linear depth-2 tree is well formed
 example :
     let v : View Unit Nat := .node addV [] (.cons (.node mulV [] (.cons (.leaf 0) (.cons (.leaf 1) .nil))) (.cons (.leaf 2) .nil))
